@@ -457,4 +457,85 @@ theorem gen_syntaxError (line : Nat) (back : List Byte) (f : Nat) (hf : back.len
     congr 2
     omega
 
+
+/-! ### the recursive-descent parser -/
+
+theorem nextR_bind {α β : Type} (x : Res α) (k : α → Res β) :
+    Cxx.nextR x k (fun l p => Res.fail l p) = x.bind k := by
+  cases x <;> rfl
+
+theorem callR_bind {β : Type} (x : Res (Val × St)) (k : Val → St → Res β) :
+    Cxx.callR x k (fun l p => Res.fail l p) = x.bind fun a => k a.1 a.2 := by
+  cases x <;> rfl
+
+theorem gen_parser : ∀ f : Nat,
+    (∀ st, JsonCode.parseValue f st = parseValue f st) ∧
+    (∀ st acc, JsonCode.pvL0 f st acc = arrLoop f acc st) ∧
+    (∀ st acc key, JsonCode.pvL1 f st acc key = objLoop f acc st) := by
+  intro f
+  induction f with
+  | zero =>
+    refine ⟨?_, ?_, ?_⟩
+    · intro st; rw [JsonCode.parseValue, parseValue]
+    · intro st acc; rw [JsonCode.pvL0, arrLoop]
+    · intro st acc key; rw [JsonCode.pvL1, objLoop]
+  | succ f ih =>
+    obtain ⟨ihV, ihA, ihO⟩ := ih
+    refine ⟨?_, ?_, ?_⟩
+    · intro st
+      rw [JsonCode.parseValue, parseValue]
+      simp only [nextR_bind, ihA, ihO]
+      by_cases hs : st.tok = 34 ∨ st.tok = 35 ∨ st.tok = 116 ∨ st.tok = 102 ∨ st.tok = 110
+      · have : isScalarTok st.tok = true := by
+          simp only [isScalarTok]; rcases hs with h | h | h | h | h <;> simp [h]
+        simp only [hs, this, if_true]
+      · have : ¬ isScalarTok st.tok = true := by
+          simp only [isScalarTok]; simp; omega
+        simp only [hs, this, if_false]
+        by_cases h91 : st.tok = 91
+        · simp [h91]
+        · by_cases h123 : st.tok = 123
+          · simp [h91, h123]
+          · simp [h91, h123]
+    · intro st acc
+      rw [JsonCode.pvL0, arrLoop]
+      simp only [nextR_bind, callR_bind, ihV, ihA]
+      by_cases h93 : st.tok = 93
+      · simp only [h93, if_true]
+      · simp only [h93, if_false]
+        congr 1
+        funext a
+        obtain ⟨v, st1⟩ := a
+        simp only
+        by_cases q93 : st1.tok = 93
+        · simp only [q93, if_true]
+        · by_cases q44 : st1.tok = 44
+          · simp [q93, q44]
+          · simp [q93, q44]
+    · intro st acc key
+      rw [JsonCode.pvL1, objLoop]
+      simp only [nextR_bind, callR_bind, ihV, ihO]
+      by_cases h125 : st.tok = 125
+      · simp only [h125, if_true]
+      · simp only [h125, if_false]
+        by_cases h34 : st.tok = 34
+        · simp only [h34, if_true, ne_eq, not_true_eq_false, if_false]
+          congr 1
+          funext st1
+          by_cases q58 : st1.tok = 58
+          · simp only [q58, if_true, ne_eq, not_true_eq_false, if_false]
+            congr 1
+            funext st2
+            congr 1
+            funext a
+            obtain ⟨v, st3⟩ := a
+            simp only
+            by_cases q125 : st3.tok = 125
+            · simp only [q125, if_true]
+            · by_cases q44 : st3.tok = 44
+              · simp [q125, q44]
+              · simp [q125, q44]
+          · simp [q58]
+        · simp [h34]
+
 end Nstd.Json
